@@ -120,7 +120,9 @@ PROPS = {
                     "sequence; non-trivial = at least 2 actors and at least one context switch; full-stack phase (0.5% of the "
                     "cases): the C20 workload (2..8 threads running solver histories under the baton scheduler) with the "
                     "REAL gc switch, initially on or off: at every scheduling step and every Z3 check, guard counter >= 1 "
-                    "implies gc off, counter never negative; at quiescence the switch is what it was and the counter 0",
+                    "implies gc off, counter never negative; at quiescence the switch is what it was and the counter 0; a "
+                    "full-stack run pre-empts at LINE granularity for its first 2 000 000 LINE events and at lock "
+                    "contention / thread exit after that (count-based, part of the digest)",
             "level_text": "seeded exploration of thread interleavings of the real GC-guard code at line (and bytecode) "
                           "granularity with the invariants checked after every scheduling step: a call in progress implies "
                           "GC disabled, the counter never goes negative, at quiescence the GC flag is what it was, no "
